@@ -24,6 +24,9 @@ CronFailTag(w, g, e) ==
         e.fails[i].f[j].method = 6 /\ F1Explains(w, g, e.fails[i].f[j].delta)
   THEN "F1-creation-deposit" ELSE "-"
 
+\* every failure in the tick is an injected one (fault plan) or the caller-side echo of one
+OnlyInjected(e) == \A i \in Idx(e.fails) : \E j \in Idx(e.fails[i].f) : e.fails[i].f[j].injected
+
 MinerChecks(M, g, e) ==
   /\ Chk("C04", "SetsNest", SetsNest(M), "-", e)
   /\ Chk("C04", "OnePartition", OnePartition(M), "-", e)
@@ -69,11 +72,15 @@ TStep ==
           /\ Chk("C05", "QueueNotStale", e.ev # "Tick" \/ QueueNotStale(e.st), "-", e)
           /\ Chk("C05", "NoOverdueExpiry", e.ev # "Tick" \/ NoOverdueExpiry(e.st), "-", e)
           /\ Chk("C05", "EarlyTermsScheduled", EarlyTermsScheduled(e.st), "-", e)
-          /\ Chk("C05", "CronNeverFails", e.ev # "Tick" \/ e.cronOK, IF e.ev = "Tick" THEN CronFailTag(Wd, G, e) ELSE "-", e)
+          /\ Chk("C05", "CronNeverFails", e.ev # "Tick" \/ e.cronOK \/ OnlyInjected(e), IF e.ev = "Tick" THEN CronFailTag(Wd, G, e) ELSE "-", e)
           /\ Chk("C05", "NoBalanceInvariantBroken", e.ev = "Tick" \/ e.code # 1000, "-", e)
           /\ Chk("C05", "NoPanic", e.ev = "Tick" \/ e.class # "panic", "-", e)
           /\ Chk("C14", "VestShape", VestShape(e.st), "-", e)
           /\ Chk("C01", "TotalFilConstant", BEq(e.st.total, Wd.total), "-", e)
+          /\ Chk("C01", "LedgerDelta", IF e.ok THEN LedgerDelta(Wd.bals, e.st.bals, e.tr)
+                                             ELSE LedgerUnchanged(Wd.bals, e.st.bals), "-", e)
+          /\ Chk("C01", "NoNegativeBalance", NoNegativeBalance(e.st.bals), "-", e)
+          /\ Chk("C01", "RewardNeverFails", e.ev # "Reward" \/ e.ok, "-", e)
 
 TInit == Wd = [epoch |-> 0] /\ G = [dep0 |-> <<>>, fresh |-> <<>>] /\ l = 1
 TSpec == TInit /\ [][TStep]_<<Wd, G, l>>
